@@ -154,6 +154,7 @@ type X struct {
 	preemptFree bool
 
 	yieldAfterUnlock bool
+	ctrlG            int64
 
 	// free-running mode (race pass): threads never park, choices are
 	// drawn from rng, only events are sequenced by the controller.
@@ -238,6 +239,11 @@ func (x *X) currentOrAdopt(label string) *Thread {
 	x.mu.Lock()
 	defer x.mu.Unlock()
 	t := x.byG[g]
+	if t == nil && g == x.ctrlG {
+		// The controller itself (key functions, monitors, event
+		// callbacks) must never be parked.
+		return nil
+	}
 	if t == nil && x.adoptAnon && x.running && !x.free {
 		t = &Thread{ID: len(x.threads), Name: "anon:" + label, Anon: true, park: make(chan int)}
 		x.threads = append(x.threads, t)
@@ -615,6 +621,7 @@ func (x *X) stateKey(gk string) string {
 func (x *X) run() {
 	x.mu.Lock()
 	x.running = true
+	x.ctrlG = goid()
 	x.mu.Unlock()
 	if x.free {
 		x.runFree()
